@@ -17,6 +17,7 @@ import (
 type defect struct {
 	name                     string
 	user, realm, nonce       string // "" = as the client would; "-" = attribute absent
+	pass                     string // "" = the presenting identity's password
 	mi                       string // ok | none | wrongkey | flip | trunc | otheruser
 	bit, trunc               int
 	wantChallenge            int // 401 / 438 when the property names the answer, else 0
@@ -30,6 +31,8 @@ func defects(validNonce string) []defect {
 		{name: "no-credentials-at-all", user: "-", realm: "-", nonce: "-", mi: "none", wantChallenge: 401},
 		{name: "wrong-key", mi: "wrongkey"},
 		{name: "unknown-user", user: "mallory", mi: "ok"},
+		// the handler returns the right key for this user together with ok=false ("derive the key, then decide")
+		{name: "refused-user-correct-password", user: vtx.RevokedUser, pass: vtx.RevokedPass, mi: "ok"},
 		{name: "unknown-user-empty-key", user: "mallory", mi: "emptykey"},
 		{name: "known-user-empty-key", mi: "emptykey"},
 		{name: "missing-username", user: "-", mi: "ok"},
@@ -75,6 +78,9 @@ func build(method uint16, tx [12]byte, attrs func(b *wire.B), user, pass, nonce 
 	u, r, n := user, vtx.Realm, nonce
 	if d.user != "" {
 		u = d.user
+	}
+	if d.pass != "" {
+		pass = d.pass
 	}
 	if d.realm != "" {
 		r = d.realm
